@@ -334,6 +334,20 @@ pub fn leaf_texts(tier: &str) -> Vec<String> {
     for t in [">=1.0.0+b", "1.0.0+b", "<=2.0.0+b.1", ">1.0.0+b <2.0.0+c"] {
         out.push(t.to_string());
     }
+    // ... and bounds carrying a prerelease tag AND build metadata (printing order; C13-9)
+    for t in [">=1.0.0-a+b", "1.0.0-a+b.1", "<2.0.0-0.a+b-c"] {
+        out.push(t.to_string());
+    }
+    if tier == "exotic" {
+        // all-digit identifiers that do not fit u64 (kept as text by the parser), with and without
+        // leading zeros and of different lengths, next to one that fits and an alphanumeric one
+        // (Ord/Eq disagreements and intransitive orders among them; C02-9, C09-9)
+        for tag in ["99999999999999999999", "099999999999999999999", "100000000000000000000", "18446744073709551615", "5x"] {
+            for op in ["<", "<=", ">", ">=", ""] {
+                out.push(format!("{}1.0.0-{}", op, tag));
+            }
+        }
+    }
     // spellings whose unusual constructor path must end in an ordinary value: an alternative written
     // the wrong way round or contradictory is dropped (a constructor that skips the validation of
     // BoundSet::new would keep an inverted interval; C09-7)
@@ -1102,6 +1116,16 @@ impl<'a> PairCtx<'a> {
             c.clause_evals += 6;
             check_roundtrip(u, &st.r, &st.within, &st.sat, matches!(st.origin, Origin::Leaf(_)), &mut |clause, w, obs, exp| {
                 rp(true, clause, w, obs, exp)
+            });
+        }
+        // C15: "results remain printable, re-parsable operands for further operations": the printed
+        // form of every state parses back to the same set (the other round-trip clauses are C13's)
+        if m.c15 && !m.c13 && !st.has_full {
+            c.clause_evals += 3;
+            check_roundtrip(u, &st.r, &st.within, &st.sat, false, &mut |clause, w, obs, exp| {
+                if matches!(clause, "reparse" | "within" | "sat") {
+                    rp(true, &format!("operand-{}", clause), w, obs, exp)
+                }
             });
         }
     }
